@@ -94,6 +94,29 @@ def disturb():
                 bw.settle()
         finally:
             bw.close()
+    # ... and a bridge on the alternative well-known ports that heard one device of each protocol type there
+    import fcntl
+    import os
+
+    lock = open("/dev/shm/aioswitcher-verif-defaultports.lock" if os.path.isdir("/dev/shm") else "/tmp/aioswitcher-verif-defaultports.lock", "w")
+    fcntl.flock(lock, fcntl.LOCK_EX)
+    try:
+        with Capture():
+            bw = BridgeWorld(ports=[10002, 10003, 20002, 20003])
+            try:
+                if bw.start()[0] == "ok":
+                    for port, t in ((10002, "V4"), (10003, "BREEZE"), (10002, "POWER_PLUG"), (10003, "RUNNER"), (20002, "MINI"), (20003, "RUNNER_MINI"), (20003, "V4"), (20002, "BREEZE")):
+                        bw.send(port, B.encode(t, name="heard"))
+                        bw.settle()
+                    DISTURBED["well_known_ports"] = len(bw.calls)
+            finally:
+                bw.close()
+    finally:
+        fcntl.flock(lock, fcntl.LOCK_UN)
+        lock.close()
+
+
+DISTURBED = {}
 
 
 def jobs(tier, seed):
